@@ -981,3 +981,119 @@ func oracleC04(x *exec, v *viols, pre, post *snap, rp *reply) {
 		}
 	}
 }
+
+
+// ---------------------------------------------------------------------------
+// C12
+
+func (x *exec) balloonDefOf(c *wctr, post *snap) string {
+	if post.BL == nil {
+		return ""
+	}
+	for _, b := range post.BL.Balloons {
+		for _, id := range b.Containers {
+			if id == c.id() {
+				return b.Def
+			}
+		}
+	}
+	return ""
+}
+
+// cpuOptedOut / memOptedOut: reference reading of annotations and configuration.
+func (x *exec) cpuOptedOut(c *wctr) (bool, string) {
+	if c.cpuPreserved() {
+		return true, "cpu.preserve annotation"
+	}
+	switch cfg := x.scn.cfgs[x.w.cfgIdx].build().(type) {
+	case *cfgapi.TopologyAwarePolicy:
+		if !cfg.Spec.Config.PinCPU {
+			return true, "pinCPU: false"
+		}
+	case *cfgapi.BalloonsPolicy:
+		if x.preserveRuleMatches(c) {
+			return true, "balloons preserve rule"
+		}
+		if cfg.Spec.Config.PinCPU != nil && !*cfg.Spec.Config.PinCPU {
+			return true, "pinCPU: false"
+		}
+	}
+	return false, ""
+}
+
+func (x *exec) memOptedOut(c *wctr, post *snap) (bool, string) {
+	if c.memPreserved() {
+		return true, "memory.preserve annotation"
+	}
+	switch cfg := x.scn.cfgs[x.w.cfgIdx].build().(type) {
+	case *cfgapi.TopologyAwarePolicy:
+		if !cfg.Spec.Config.PinMemory {
+			return true, "pinMemory: false"
+		}
+	case *cfgapi.BalloonsPolicy:
+		pin := cfg.Spec.Config.PinMemory == nil || *cfg.Spec.Config.PinMemory
+		why := "pinMemory: false"
+		if def := x.balloonDefOf(c, post); def != "" {
+			for _, d := range cfg.Spec.Config.BalloonDefs {
+				if d.Name == def && d.PinMemory != nil {
+					pin, why = *d.PinMemory, "pinMemory: false for balloon type "+def
+				}
+			}
+		} else if x.preSnap != nil {
+			if pre := x.balloonDefOf(c, x.preSnap); pre != "" {
+				for _, d := range cfg.Spec.Config.BalloonDefs {
+					if d.Name == pre && d.PinMemory != nil {
+						pin, why = *d.PinMemory, "pinMemory: false for balloon type "+pre
+					}
+				}
+			}
+		}
+		if !pin {
+			return true, why
+		}
+	}
+	return false, ""
+}
+
+func oracleC12(x *exec, v *viols, pre, post *snap, rp *reply) {
+	evKind := strings.Split(rp.ev, ":")[0]
+	// configuration in effect while the request was processed: for a reconfiguration judge against both old and new
+	for _, a := range x.addr[x.addrMark:] {
+		c := x.w.byID[a.id]
+		if c == nil {
+			continue
+		}
+		if out, why := x.cpuOptedOut(c); out && a.cpus != "" && a.cpus != c.init.Cpus {
+			if evKind == "reconf" && !x.cpuOptedOutUnder(c, x.cfgBefore) {
+				// opted out only under the new configuration; the update may legitimately stem from the old one
+			} else {
+				verifCounters["c12_optout_violations_seen"]++
+				v.add("cpu-optout-told-cpus", "cpu-optout-told-cpus:"+a.kind+":"+evKind, "%s: container %s is opted out of CPU pinning (%s; created with cpus %q) but the %s tells it cpus %q", rp.ev, a.id, why, c.init.Cpus, a.kind, a.cpus)
+			}
+		}
+		if out, why := x.memOptedOut(c, post); out && a.mems != "" && a.mems != a.hadMems {
+			verifCounters["c12_optout_violations_seen"]++
+			v.add("mem-optout-told-mems", "mem-optout-told-mems:"+a.kind+":"+evKind, "%s: container %s is opted out of memory pinning (%s; had mems %q) but the %s tells it mems %q", rp.ev, a.id, why, a.hadMems, a.kind, a.mems)
+		}
+	}
+	for _, c := range x.liveCtrs() {
+		if o, _ := x.cpuOptedOut(c); o {
+			verifCounters["c12_states_with_cpu_opted_out_container"]++
+			break
+		}
+	}
+	for _, c := range x.liveCtrs() {
+		if o, _ := x.memOptedOut(c, post); o {
+			verifCounters["c12_states_with_mem_opted_out_container"]++
+			break
+		}
+	}
+}
+
+func (x *exec) cpuOptedOutUnder(c *wctr, cfgIdx int) bool {
+	saved := x.w.cfgIdx
+	x.w.cfgIdx = cfgIdx
+	o, _ := x.cpuOptedOut(c)
+	x.w.cfgIdx = saved
+	return o
+}
